@@ -166,7 +166,7 @@ def eofBody (src : Src) (n : Nat) : Prog :=
 /-- `ImageIterator.__next__`: `try: return next(self._animator) … except Exception: self.close(); raise`.
     `first`: the generator starts (`self._img = img`). -/
 def iterNext (first : Bool) (body : Prog) : Prog :=
-  tryExcept (seq (if first then act (.hold .gen) else done) body) (act .iterClose) none
+  nextGuard (seq (if first then act (.hold .gen) else done) body)
 
 /-- how a standalone iteration ends -/
 inductive Ending
@@ -247,6 +247,63 @@ def fromUrlOp (h : Http) (identifiable animProp initOk : Bool) : Prog :=
 
 /-- `BaseImage.close()` (idempotent) -/
 def closeOp : Prog := act .imageClose
+
+/-! ## several URL-sourced images at once: the temp directory -/
+
+/-- an image made by `from_url`: the name of its private copy, `_closed` -/
+structure UImg where
+  name : Nat
+  closed : Bool
+deriving DecidableEq, Repr
+
+/-- the library's temp directory and the URL images made so far -/
+structure UrlSt where
+  next : Nat := 0               -- `mkstemp`: every call returns a name never returned before
+  files : List Nat := []        -- names present in `_TEMP_DIR`
+  imgs : List UImg := []
+deriving Repr
+
+inductive UOp
+  /-- `from_url(url)`; `key` identifies the URL's last path component, `ok` whether download and
+      construction succeed.  `mkstemp("-" + basename, dir=_TEMP_DIR)` — the name is fresh whatever
+      the key is. -/
+  | open_ (key : Nat) (ok : Bool)
+  /-- `str(image)`: `_get_image` opens `self._source` -/
+  | render (i : Nat)
+  /-- `image.close()` / garbage collection of the image -/
+  | close (i : Nat)
+deriving Repr
+
+def urlStep (st : UrlSt) : UOp → UrlSt × String
+  | .open_ _ ok =>
+    if ok then
+      ({ next := st.next + 1, files := st.next :: st.files, imgs := st.imgs ++ [⟨st.next, false⟩] }, "ok")
+    else (st, "err")
+  | .render i =>
+    match st.imgs[i]? with
+    | none => (st, "noimg")
+    | some im =>
+      if im.closed then (st, "err TermImageError")
+      else if st.files.contains im.name then (st, "ok")
+      else (st, "err FileNotFoundError")
+  | .close i =>
+    match st.imgs[i]? with
+    | none => (st, "noimg")
+    | some im =>
+      if im.closed then (st, "ok")
+      else ({ st with files := st.files.filter (· != im.name),            -- os.remove(self._source)
+                      imgs := st.imgs.set i { im with closed := true } }, "ok")
+
+def urlRun (st : UrlSt) : List UOp → UrlSt
+  | [] => st
+  | op :: ops => urlRun (urlStep st op).1 ops
+
+/-- per operation: its answer and, for every image, whether its copy exists -/
+def urlTrace (st : UrlSt) : List UOp → List (String × List Bool)
+  | [] => []
+  | op :: ops =>
+    let r := urlStep st op
+    (r.2, r.1.imgs.map (fun im => r.1.files.contains im.name)) :: urlTrace r.1 ops
 
 /-! ## quiescence: every Python frame is gone; what is still referenced by a live library object -/
 
